@@ -240,7 +240,7 @@ Definition update_job (s : state) (o n : job) : state :=
 
 Definition olt (a b : option Z) : bool := match a, b with Some x, Some y => x <? y | _, _ => false end.
 
-(* attempts_before_update (067): clamp NEW against OLD, on the four time/reason columns
+(* attempts_before_update (124, the block order repaired for C03): clamp NEW against OLD, on the four time/reason columns
    (start, rollup, end, reason) *)
 Definition times := (option Z * option Z * option Z * option Z)%type.
 
@@ -251,14 +251,15 @@ Definition clamp4 (o n : times) : times :=
   let ns1 := match os with
              | Some x => match ns with None => os | Some y => if x <? y then os else ns end
              | None => ns end in
-  (* IF NEW.reason = 'activation_timeout' *)
-  let ns2 := if oeqb nrs (Some REASON_ACTIVATION_TIMEOUT) then None else ns1 in
   (* IF OLD.reason IS NOT NULL AND (OLD.end_time IS NULL OR NEW.end_time IS NULL OR NEW.end_time >= OLD.end_time) *)
   let keep := match ors with
               | Some _ => match oe, ne with Some a, Some b => a <=? b | _, _ => true end
               | None => false end in
   let ne3 := if keep then oe else ne in
   let nrs3 := if keep then ors else nrs in
+  (* IF NEW.reason = 'activation_timeout' — migration 124: AFTER the end/reason block, so it tests the reason the
+     row will carry (in 067 it came before it and tested the requested reason; see Clamp.clamp4_unfixed) *)
+  let ns2 := if oeqb nrs3 (Some REASON_ACTIVATION_TIMEOUT) then None else ns1 in
   (* rollup_time should not go backward in time *)
   let nrl4 := if olt nrl orl then orl else nrl in
   (* rollup_time should never be less than the start time *)
